@@ -39,9 +39,10 @@ pub struct RawGen {
     pub weights: Vec<u32>,
     pub reach: Vec<&'static str>,
     pub term_lines: usize,
+    shadow_groups: usize,
 }
 
-pub const RAW_FAMILIES: [&str; 18] = [
+pub const RAW_FAMILIES: [&str; 20] = [
     "defmacro",
     "callmacro",
     "cond_open",
@@ -59,6 +60,8 @@ pub const RAW_FAMILIES: [&str; 18] = [
     "toks_cs",
     "own_catcode",
     "expandafter",
+    "let_builtin",
+    "shadow_builtin",
     "dump",
 ];
 
@@ -104,6 +107,7 @@ impl RawGen {
             weights,
             reach: vec![],
             term_lines: 0,
+            shadow_groups: 0,
         }
     }
 
@@ -430,6 +434,51 @@ impl RawGen {
                     .to_string(),
                 )
             }
+            "let_builtin" => {
+                // \let aliases of many different built-ins (execution, expansion, variable,
+                // conditional), used after later checkpoints.
+                self.reach.push("let_alias_of_builtin");
+                let id = self.id();
+                Some(
+                    [
+                        "\\let\\xla=\\def \\xla\\xlq{L1.}\\xlq ;",
+                        "\\let\\xlb=\\count \\xlb11=7 \\the\\xlb11;",
+                        "\\let\\xlc=\\ifnum \\xlc 1<2 T\\else F\\fi;",
+                        "\\let\\xld=\\advance \\xld\\count11 by 1 \\the\\count11;",
+                        "\\let\\xle=\\global \\xle\\count11=3 ",
+                        "\\let\\xlf=\\expandafter \\xlf\\relax\\relax;",
+                        "\\let\\xlg=\\fi \\iftrue G\\xlg;",
+                        "\\let\\xlh=\\year \\the\\xlh;",
+                        "\\let\\xli=\\catcode \\the\\xli 65;",
+                        "\\xlq ;\\the\\xlb11;\\xlc 3<2 T\\else F\\fi;\\the\\xlh;",
+                        "\\let\\xlj=\\let \\xlj\\xlk=\\jobname \\xlk;",
+                        "\\let\\xll=\\countdef \\xll\\xlm=12 \\xlm=4 \\the\\count12;",
+                    ][id as usize % 12]
+                    .to_string(),
+                )
+            }
+            "shadow_builtin" => {
+                // A built-in name redefined locally; the group is closed on a later line, possibly
+                // after a checkpoint, which must bring the built-in back.
+                if self.shadow_groups > 0 && rng.chance(1, 2) {
+                    self.shadow_groups -= 1;
+                    self.reach.push("shadowed_builtin_restored_by_group_end");
+                    Some("\\month;}\\the\\month;".to_string())
+                } else if self.shadow_groups < 2 {
+                    self.shadow_groups += 1;
+                    self.reach.push("builtin_shadowed_in_group");
+                    Some(
+                        [
+                            "{\\def\\month{SHADOW.}",
+                            "{\\let\\month=\\jobname ",
+                            "{\\countdef\\month=13 \\month=6 ",
+                        ][rng.below(3)]
+                        .to_string(),
+                    )
+                } else {
+                    None
+                }
+            }
             "dump" => {
                 self.reach.push("dump_primitive");
                 let fmt = rng.below(3);
@@ -454,11 +503,15 @@ impl RawGen {
     pub fn whole_line(&mut self, rng: &mut Rng) -> String {
         self.reach.push("line_with_visible_end_of_line");
         let id = self.id();
-        match rng.below(4) {
+        match rng.below(7) {
             0 => format!("W{id}"),
             1 => format!("W{id} \\relax"),
             2 => format!("\\count18={id}"),
-            _ => format!("W{id}   "),
+            3 => format!("W{id}   "),
+            // Multi-line sources: positions of errors on later lines depend on the tracer state.
+            4 => format!("W{id}\nX{id} \\undefinedcs Y"),
+            5 => format!("W{id}%\n\n  é{id}\\count18=x"),
+            _ => format!("\\count18={id}\nV\\the\\count18\n\\fi"),
         }
     }
 }
